@@ -15,6 +15,8 @@ use std::sync::atomic::{AtomicBool, AtomicU64, AtomicUsize, Ordering};
 const NSLOTS: usize = 64;
 const MAXB: usize = 2048;
 pub const WATCHDOG_SECS: u64 = 120;
+/// the thorough tier's scale cases are five times larger
+pub const WATCHDOG_SECS_THOROUGH: u64 = 600;
 
 struct Slot {
     busy: AtomicBool,
@@ -42,6 +44,7 @@ static SLOTS: [Slot; NSLOTS] = [EMPTY; NSLOTS];
 static NEXT_SLOT: AtomicUsize = AtomicUsize::new(0);
 static PROP: std::sync::OnceLock<String> = std::sync::OnceLock::new();
 static DIR: std::sync::OnceLock<String> = std::sync::OnceLock::new();
+static TIER: std::sync::OnceLock<String> = std::sync::OnceLock::new();
 static START: std::sync::OnceLock<std::time::Instant> = std::sync::OnceLock::new();
 
 thread_local! {
@@ -113,6 +116,8 @@ unsafe fn save(idx: usize, signature: &[u8], path: &mut [u8; 512]) -> usize {
         let s = &SLOTS[idx];
         wr(fd, b"{\"property\": \"");
         wr(fd, prop);
+        wr(fd, b"\", \"tier\": \"");
+        wr(fd, TIER.get().map(|s| s.as_bytes()).unwrap_or(b"quick"));
         wr(fd, b"\", \"family\": \"");
         wr(fd, &(&*s.family.get())[..s.family_len.load(Ordering::SeqCst)]);
         wr(fd, b"\", \"bytes\": \"");
@@ -149,8 +154,9 @@ extern "C" fn on_fatal(sig: i32, _info: *mut libc::siginfo_t, _ctx: *mut libc::c
 }
 
 /// Install the handlers and start the watchdog. `prop` is the property being checked.
-pub fn install(prop: &str, verif_dir: &str) {
+pub fn install(prop: &str, verif_dir: &str, tier: &str) {
     let _ = PROP.set(prop.to_string());
+    let _ = TIER.set(tier.to_string());
     let _ = DIR.set(verif_dir.to_string());
     let _ = START.set(std::time::Instant::now());
     let _ = std::fs::create_dir_all(format!("{}/replays/{}", verif_dir, prop));
@@ -168,14 +174,15 @@ pub fn install(prop: &str, verif_dir: &str) {
         .spawn(|| loop {
             std::thread::sleep(std::time::Duration::from_secs(1));
             let now = now_ms();
+            let limit_secs = if TIER.get().map(|t| t == "thorough").unwrap_or(false) { WATCHDOG_SECS_THOROUGH } else { WATCHDOG_SECS };
             for (i, s) in SLOTS.iter().enumerate() {
-                if s.busy.load(Ordering::SeqCst) && now.saturating_sub(s.started_ms.load(Ordering::SeqCst)) > WATCHDOG_SECS * 1000 {
+                if s.busy.load(Ordering::SeqCst) && now.saturating_sub(s.started_ms.load(Ordering::SeqCst)) > limit_secs * 1000 {
                     unsafe {
                         let mut path = [0u8; 512];
                         let n = save(i, b"watchdog:case-did-not-finish", &mut path);
                         eprintln!(
                             "INFRA: watchdog: a case did not finish within {} s (inconclusive, not a violation); saved as {}",
-                            WATCHDOG_SECS,
+                            limit_secs,
                             String::from_utf8_lossy(&path[..n])
                         );
                         libc::_exit(2);
